@@ -405,6 +405,22 @@ def verify_unit(unit, tier="quick", do_canary=True):
                 continue
             seen.add((a["id"], a["text"]))
             fails.append(a)
+        # Constructs Verus ACCEPTS but gives no meaning to: a failed obligation in a function whose extracted text uses one is not a refutation
+        # of the code (a harmless rewrite into such a construct would otherwise be a false alarm) -> UNDECIDED, never an alarm.
+        #   * string-literal patterns in `match` (`"." => ..`): the scrutinee's text is not related to the pattern by the verifier
+        m_g = R.mask(g)
+        def _meaningless(fn_name):
+            for f in fns:
+                if f.name == fn_name:
+                    body = g[f.kw:f.end]
+                    if re.search(r'(?m)^\s*"(?:[^"\\]|\\.)*"\s*(?:\|\s*"(?:[^"\\]|\\.)*"\s*)*=>', body):
+                        return "string-literal match pattern"
+            return None
+        why = [(_meaningless(a.get("fn", "")), a) for a in fails]
+        if fails and all(w for (w, _a) in why):
+            out.update(status="undecided", reason="failed obligation(s) in code using a construct the verifier gives no meaning to (" + why[0][0] + "): "
+                       + "; ".join(a["id"] for a in fails[:3]))
+            return out
         out.update(status="failed", failures=fails)
         return out
     out["status"] = "ok"
